@@ -139,8 +139,6 @@ def glued_candidates(rng, history, k):
 
 def classify(pw, kinds, exc=None):
     """Mechanism keys of the recorded findings, decided from the INPUT (and, for F-C05b, the exception type + frames)."""
-    if exc is not None and isinstance(exc[0], RecursionError) and 'detect_keyboard_walk' in exc[1]:
-        return 'keyboard-walk-recursion-depth'
     return None
 
 def uclasses(pw):
@@ -261,6 +259,10 @@ def run(run, rng):
         case = {'history': hist, 'strings': strings}
         run.guard(case, check_batch, seconds=300)
         done += BATCH
+    if run.tier == 'quick' and run.shard[0] == 0:
+        for s_ in ('1qaz2wsx3edc4rfv' * 300, ''.join(['1qaz9', 'zaq1x', 'qwer1!'][i % 3] for i in range(1500))):
+            run.ev('pathological_length_cases')
+            run.guard({'history': [], 'strings': [s_]}, check_batch, seconds=300)
     if run.tier == 'thorough' and run.shard[0] == 0:
         import sys as _s
         for s in pathological(rng):
